@@ -462,6 +462,8 @@ class SpecMon(Monitor):
             if lab == "sp":
                 self.exp["path"] = ("utf8slice", self.marks.pop("path_s"), here)
                 self.q = ("S2",)
+                if self.flags.pop("utf8_bad", False):
+                    self.err("Token")
                 return
             self.err("Token")
             return
@@ -1118,8 +1120,12 @@ class SpecMon(Monitor):
     def on_str(self, m, st, s, ok):
         # the one check the statement defers: UTF-8 validity of the request target, judged at its
         # terminating SP
-        if self.kind == "request" and not ok and self.q[0] == "S2" and "path" in self.exp and "path" not in self.got:
-            self.err("Token")
+        if self.kind == "request" and not ok and "path" not in self.got:
+            if self.q[0] == "S2" and "path" in self.exp:
+                self.err("Token")
+            elif self.q[0] == "U1":
+                # validated before its terminating SP was consumed: judged when the SP arrives
+                self.flags["utf8_bad"] = True
 
     # ---- verdict at return ------------------------------------------------------------------------
     def finish(self, m, st):
